@@ -261,6 +261,16 @@ func streamEcdh(c *ctx) {
 						out["exported"] = pk2
 					}
 				}
+				// the same forms with the optional alg member naming a key-agreement algorithm (a peer may well send it)
+				for _, base := range []string{"uncompressed", "compressed"} {
+					if b, ok := out[base]; ok {
+						wa := cloneKey(b)
+						wa[iana.KeyParameterAlg] = pick(c.r, []int{iana.AlgorithmECDH_ES_HKDF_256, iana.AlgorithmECDH_SS_HKDF_256, iana.AlgorithmECDH_ES_A128KW})
+						if ecdh.CheckKey(wa) == nil {
+							out[base+"+alg"] = wa
+						}
+					}
+				}
 				return out
 			}
 			fa, fb := forms(ka), forms(kb)
